@@ -38,16 +38,16 @@ Section AddrXmr.
     guard (list_eqb net (firstn (length net) payload)) else ValueError ;;
     let body := skipn (length net) payload in
     let klen := ed_pub_len in
-    _ <- (if (length body =? 2 * klen)%nat then Ok tt
-          else
-            guard (length body =? 2 * klen + xmr_payid_len)%nat else ValueError ;;
-            match payid with
-            | None => Err ValueError
-            | Some p =>
-              guard (length p =? xmr_payid_len)%nat else ValueError ;;
-              guard (list_eqb p (take_last xmr_payid_len body)) else ValueError ;;
-              Ok tt
-            end) ;;
+    (* without an expected payment id the plain length; with one, its length, the with-id length of the payload
+       and the id itself are checked *)
+    _ <- match payid with
+         | None => guard (length body =? 2 * klen)%nat else ValueError ;; Ok tt
+         | Some p =>
+           guard (length p =? xmr_payid_len)%nat else ValueError ;;
+           guard (length body =? 2 * klen + xmr_payid_len)%nat else ValueError ;;
+           guard (list_eqb p (take_last xmr_payid_len body)) else ValueError ;;
+           Ok tt
+         end ;;
     let ps := firstn klen body in
     let pv := slice klen (2 * klen) body in
     guard (EdLib.pub_is_valid G pdec ps) else ValueError ;;
